@@ -53,6 +53,9 @@ CLAIMS = {
  "C17": ("Lean theorems: every sequence of buffer operations keeps the position inside the array; under the operations the library uses no unwritten cell is exposed (the bare pub skip does expose them: proved hazard, no call site); a v1/v2c request fails with OutOfBuffer iff its encoding exceeds the capacity and is otherwise complete; capacity < 65536. Op-sequence correspondence against the Lean model and a Vec-backed shadow; sizes swept across 127/128, 255/256 and the capacity against an independent encoder.",
          TB + "the unsafe blocks are modelled as list operations; no sanitizer run.",
          "Lean 4 proof (invariant over operation histories, encoder specification) + differential correspondence", "§7 C17"),
+ "C18": ("Lean theorems over a discrete-time model of the receive loop (Model/Timing.lean) for EVERY arrival schedule (any number of datagrams of any kind at any times): the blocking call (one deadline per call, as repaired by the fix commit 4d1c0ae) and the awaited call end no later than timeout + the processing time of one datagram; a silent agent and an agent that only sends non-matching datagrams yield TimeoutError; a matching reply in hand before the deadline is delivered; old_unbounded proves that the pre-repair loop (fresh timeout per recv) has no bound. Tied to the code by running the same schedules through the real sync and async SnmpSession (v1, v2c, v3) on a 50 ms grid with re-confirmation.",
+         TB + "the discrete-time abstraction of SO_RCVTIMEO and asyncio.wait_for; kernel, event loop and thread scheduling are not modelled (wall-clock slack of one tick).",
+         "Lean 4 proof (induction over arrival schedules on a discrete-time model) + wall-clock schedule oracle + correspondence", "§7 C18"),
  "C19": ("Lean theorems over an executable model of RPSPolicer.get_timeout for every interval and every admissible history of any length: delay <= one interval; any k+2 consecutive releases span more than k intervals; constructor refusals. Tied to policer.py by running model and implementation on the same generated histories.",
          TB + "float division NS/rps, sleep and the clock.",
          "Lean 4 proof (invariant by induction over histories) + differential correspondence", "§7 C19"),
